@@ -448,6 +448,9 @@ def native_history_check(hist):
                 m = re.match(r"Ok\(SymbolId\((\d+)\),(.*?),(\w+)", r)
                 if not m or int(m.group(1)) != want or m.group(2) != p[1] or m.group(3) != types[want]:
                     return True, f"{h}: got {r}, the innermost binding is id {want} ({types[want]})"
+    # exiting a scope removes exactly its own bindings: the current scope holds what the oracle's innermost map holds
+    if "len_current_scope" in o and len(o["results"]) == len(hist) and o["len_current_scope"] != len(stack[-1]):
+        return True, f"after the history the current scope holds {o['len_current_scope']} names, the stack-of-maps oracle {len(stack[-1])}"
     return False, ""
 
 
